@@ -21,7 +21,10 @@ def build(fggs, gspec, which):
         ns = {i: fggs.Node(fggs.NodeLabel(l), id=i) for i, l in S['nodes'].items()}
         for v in ns.values():
             g.add_node(v)
-        for eid, att in S['nts'].items():
+        nts_items = list(S['nts'].items())
+        if gspec.get('reverse_edges'):
+            nts_items.reverse()
+        for eid, att in nts_items:
             g.add_edge(fggs.Edge(nt(labs[eid]), [ns[a] for a in att], id=eid))
         for j, tname in enumerate(terms):
             typ = gspec['terminals'][tname]
